@@ -171,3 +171,7 @@ def run(ctx):
     n = 500 if ctx.tier == "quick" else 12000
     stream.run_stream(ctx, "lazy", "harness.props.c09", "gen_cases", n, per_chunk=32,
                       canon_kw=dict(drop_zero=True))
+
+
+def replay(ctx, payload):
+    return stream.replay(ctx, payload, canon_kw=dict(drop_zero=True))
